@@ -5,6 +5,7 @@ loops) builds tables whose induced law is the input vector.  Invariant over `mai
 import RpylibModel.Model.Samplers.Alias
 import RpylibModel.Proofs.Lemmas.C02Alias
 import Mathlib.Algebra.BigOperators.Intervals
+import Mathlib.Algebra.BigOperators.Ring.Finset
 import Mathlib.Tactic.Linarith
 import Mathlib.Tactic.Ring
 import Mathlib.Tactic.FieldSimp
